@@ -270,6 +270,19 @@ func (m *Machine) callFunction(fn *ssa.Function, args []Value, env []Value, call
 		}
 	}
 	if len(m.cur.stack) > 400 {
+		pk := fn.Pkg
+		if pk == nil && fn.Origin() != nil {
+			pk = fn.Origin().Pkg // instantiation of a generic function
+		}
+		if pk != nil && m.P.isHarnessPkg(pk) {
+			// runaway recursion in the code under test: natively a fatal "stack overflow" that nothing can recover.
+			// Reported as a crash candidate - the native replay decides (a merely deep, terminating recursion does not
+			// reproduce and is then an ENGINE-DIVERGENCE, i.e. inconclusive, as before).
+			msg := fmt.Sprintf("fatal error: stack overflow (call depth > 400 in %s)", name)
+			m.logs = append(m.logs, msg)
+			m.modelViolation("crash", nil, "", msg)
+			m.end(StCrash, "%s", msg)
+		}
 		m.end(StUnwind, "call depth > 400 in %s", name)
 	}
 	fr := &frame{m: m, g: m.cur, caller: caller, fn: fn, env: make(map[ssa.Value]Value, 16), visits: map[int]int{}}
